@@ -52,7 +52,7 @@ def decode_template(b):
             pieces.append(("hole",))
             i += 1
         elif c < 0x80:
-            pieces.append(("lit", b[i + 1:i + 1 + c].decode("utf8", "replace")))
+            pieces.append(("txt", b[i + 1:i + 1 + c].decode("utf8", "replace")))
             i += 1 + c
         else:
             pieces.append(("spec", c))
@@ -60,8 +60,8 @@ def decode_template(b):
     # merge adjacent literals
     out = []
     for p in pieces:
-        if out and p[0] == "lit" and out[-1][0] == "lit":
-            out[-1] = ("lit", out[-1][1] + p[1])
+        if out and p[0] == "txt" and out[-1][0] == "txt":
+            out[-1] = ("txt", out[-1][1] + p[1])
         else:
             out.append(p)
     return tuple(out)
@@ -238,7 +238,14 @@ def apply_model(sym, n, f, vals, mut_idx, st):
 
     # ---- iterators (pure lookahead) -----------------------------------------------------------------------------------
     if p == "std::iter::Peekable::peek":
-        return V(("peek", vals[0]))
+        v0 = vals[0]
+        if v0[0] in ("place", "pl") and n.get("args"):
+            for s2, (k2, v2) in sym.ev(strip_mut(n["args"][0]), st):
+                if k2 == VAL:
+                    v0 = v2
+        if v0[0] == "loop" or v0[0] == "place":
+            return V(("peek", vals[0]))
+        return V(("peek", v0))
     if p in ("std::iter::Iterator::all", "std::iter::Iterator::any") and len(vals) == 2:
         itv = vals[0]
         if itv[0] == "place":
@@ -270,7 +277,7 @@ def apply_model(sym, n, f, vals, mut_idx, st):
                     kinds.append(("?", a))
             return V(("fmtargs", pieces, tuple(kinds)))
     if p == "std::fmt::Arguments::from_str" and len(vals) == 1:
-        return V(("fmtargs", (("lit", vals[0][2]),) if vals[0][0] == "lit" else (("dyn", vals[0]),), ()))
+        return V(("fmtargs", (("txt", vals[0][2]),) if vals[0][0] == "lit" else (("dyn", vals[0]),), ()))
     if p == "std::fmt::format" and len(vals) == 1:
         return V(("format", vals[0]))
     if p == "std::default::Default::default" and not vals:
